@@ -198,7 +198,7 @@ def _raw_modelled(s: bytes) -> bool:
 def gen(rng, tier):
     quick = tier == "quick"
     cases = []
-    for _ in range(900 if quick else 30000):
+    for _ in range(900 if quick else 8000):
         cases.append({"x": [_item(rng, 4) for _ in range(rng.randrange(0, 5))]})
     # exhaustive short strings over a 7-symbol alphabet, alone / last in a list / inside a nested list
     alpha = [b"\\", b'"', b" ", b"a", b"\n", b"(", b"{"]
@@ -210,7 +210,7 @@ def gen(rng, tier):
             s = {"b": b"".join(w).hex()}
             k = rng.randrange(3)
             cases.append({"x": [s] if k == 0 else ([None, s] if k == 1 else [[s, 1], s])})
-    for _ in range(300 if quick else 8000):
+    for _ in range(300 if quick else 3000):
         cases.append({"raw": _raw(rng).hex()})
     return cases
 
